@@ -847,8 +847,19 @@ func stateRootFromBlockTxs(txs [][]byte) (hash.Hash, error) {
 	if len(txs) == 0 {
 		return hash.Hash{}, fmt.Errorf("malformed block transactions")
 	}
-	metaTx := txs[len(txs)-1]
-	return stateRootFromMetaTx(metaTx)
+	// The block metadata transaction is the last transaction the proposer puts into the block, but
+	// a block may also carry transactions that fail (e.g. a look-alike metadata transaction with an
+	// invalid signature, which the validators treat as an ordinary failed transaction). Validators
+	// reject a block with more than one valid block metadata transaction, so take the last
+	// transaction that is a correctly signed block metadata transaction.
+	var err error
+	for i := len(txs) - 1; i >= 0; i-- {
+		var stateRoot hash.Hash
+		if stateRoot, err = stateRootFromMetaTx(txs[i]); err == nil {
+			return stateRoot, nil
+		}
+	}
+	return hash.Hash{}, err
 }
 
 func stateRootFromMetaTx(metaTx []byte) (hash.Hash, error) {
@@ -856,8 +867,9 @@ func stateRootFromMetaTx(metaTx []byte) (hash.Hash, error) {
 	if err := cbor.Unmarshal(metaTx, &sigTx); err != nil {
 		return hash.Hash{}, fmt.Errorf("malformed block metadata transaction: %w", err)
 	}
+	// Verify the signature, the validators do not process a transaction whose signature is invalid.
 	var tx transaction.Transaction
-	if err := cbor.Unmarshal(sigTx.Blob, &tx); err != nil {
+	if err := sigTx.Open(&tx); err != nil {
 		return hash.Hash{}, fmt.Errorf("malformed block metadata transaction: %w", err)
 	}
 	if tx.Method != consensusAPI.MethodMeta {
